@@ -60,10 +60,14 @@ structure Cfg where
   that follows it up to the next letter m; repaired: `\x1b\[([0-9;:]*)m` — other CSI sequences stay in the text, where
   `re_csi` removes them. -/
   sgrLazy : Bool
+  /-- F33: the second alternative of `re_ansi` ends an OSC string at `ESC \\` only; the BEL-terminated form — the one most
+  programs write (`ESC ] 8 ; ; url BEL` of `ls --hyperlink`, gcc, systemd; `ESC ] 0 ; title BEL`) — is not recognised: the
+  hyperlink is lost and `8;;url` / `0;title` is printed as text; repaired: `(?:\x1b\\|\x07)`. -/
+  oscStOnly : Bool
 deriving Repr, DecidableEq
 
-def Cfg.old : Cfg := ⟨true, true, true, true, true, true, true⟩
-def Cfg.repaired : Cfg := ⟨false, false, false, false, false, false, false⟩
+def Cfg.old : Cfg := ⟨true, true, true, true, true, true, true, true⟩
+def Cfg.repaired : Cfg := ⟨false, false, false, false, false, false, false, false⟩
 
 /-- The variant of the Style model (C06) the decoder's style operations are taken at: the repaired one.  Only the
 five compared fields of a style and `_null` are observed here; on the decoder's inputs (table entries without `rgb(…)`
@@ -72,6 +76,7 @@ correspondence compares exactly those fields on every run. -/
 abbrev Cfg.sv (_ : Cfg) : StyleVariant := StyleVariant.fixed
 
 def ESC : Char := Char.ofNat 27
+def BEL : Char := Char.ofNat 7
 
 /-! ## Python `str` facts -/
 
@@ -183,12 +188,14 @@ def findSgrM : List Char → Option (List Char)
 /-- the group of the first alternative of `re_ansi` after `ESC [` -/
 def findM (lazy : Bool) (s : List Char) : Option (List Char) := if lazy then findLazyM s else findSgrM s
 
-/-- `(.*?)\x1b\\` at the start of `s`. -/
-def findST : List Char → Option (List Char)
+/-- `(.*?)\x1b\\` at the start of `s` — repaired (F33, `bel`): `(.*?)(?:\x1b\\|\x07)`, an OSC string may also end with BEL.
+Returns the group and the length of the terminator. -/
+def findST (bel : Bool) : List Char → Option (List Char × Nat)
   | [] => none
   | c :: r =>
-    if c = ESC ∧ r.head? = some '\\' then some []
-    else if c = '\n' then none else (findST r).map (c :: ·)
+    if c = ESC ∧ r.head? = some '\\' then some ([], 2)
+    else if bel ∧ c = BEL then some ([], 1)
+    else if c = '\n' then none else (findST bel r).map fun p => (c :: p.1, p.2)
 
 def isCsiParam (c : Char) : Bool := 0x30 ≤ c.toNat && c.toNat ≤ 0x3F     -- [0-?]
 def isCsiInter (c : Char) : Bool := 0x20 ≤ c.toNat && c.toNat ≤ 0x2F     -- space .. slash
@@ -229,27 +236,27 @@ def flushPlain (acc : List Char) : List Token := if acc.isEmpty then [] else [.p
 
 /-- `re_ansi.finditer` with the text between matches; `k` counts characters of the current match
 still to be skipped, `acc` is the text since the end of the last match. -/
-def tokAux (lazy : Bool) : List Char → Nat → List Char → List Token
+def tokAux (lazy bel : Bool) : List Char → Nat → List Char → List Token
   | [], _, acc => flushPlain acc
-  | _ :: r, k + 1, acc => tokAux lazy r k acc
+  | _ :: r, k + 1, acc => tokAux lazy bel r k acc
   | c :: r, 0, acc =>
     if c = ESC then
       match r with
       | d :: r' =>
         if d = '[' then
           match findM lazy r' with
-          | some body => flushPlain acc ++ .sgr body :: tokAux lazy r (body.length + 2) []
-          | none => tokAux lazy r 0 (acc ++ [c])
+          | some body => flushPlain acc ++ .sgr body :: tokAux lazy bel r (body.length + 2) []
+          | none => tokAux lazy bel r 0 (acc ++ [c])
         else if d = ']' then
-          match findST r' with
-          | some body => flushPlain acc ++ .osc body :: tokAux lazy r (body.length + 3) []
-          | none => tokAux lazy r 0 (acc ++ [c])
-        else tokAux lazy r 0 (acc ++ [c])
-      | [] => tokAux lazy r 0 (acc ++ [c])
-    else tokAux lazy r 0 (acc ++ [c])
+          match findST bel r' with
+          | some (body, tl) => flushPlain acc ++ .osc body :: tokAux lazy bel r (body.length + 1 + tl) []
+          | none => tokAux lazy bel r 0 (acc ++ [c])
+        else tokAux lazy bel r 0 (acc ++ [c])
+      | [] => tokAux lazy bel r 0 (acc ++ [c])
+    else tokAux lazy bel r 0 (acc ++ [c])
 
 /-- `_ansi_tokenize(ansi_text)` -/
-def tokenize (lazy : Bool) (s : List Char) : List Token := tokAux lazy s 0 []
+def tokenize (lazy bel : Bool) (s : List Char) : List Token := tokAux lazy bel s 0 []
 
 /-! ## `AnsiDecoder` -/
 
@@ -397,7 +404,7 @@ def decodeToks (cfg : Cfg) : Style → List Token → Style × Except DecErr (Li
 
 /-- `AnsiDecoder.decode_line(line)` from decoder state `st`. -/
 def decodeLine (cfg : Cfg) (st : Style) (line : List Char) : Style × Except DecErr (List Run) :=
-  decodeToks cfg st (tokenize cfg.sgrLazy (afterLastCR cfg.crErases line))
+  decodeToks cfg st (tokenize cfg.sgrLazy (!cfg.oscStOnly) (afterLastCR cfg.crErases line))
 
 /-- Lines decoded one after the other with the style carried over; stops at the first exception. -/
 def decodeMany (cfg : Cfg) : Style → List (List Char) → Style × Except DecErr (List (List Run))
